@@ -107,7 +107,9 @@ theorem delivered_was_sealed (C : Crypto) (hC : C.Ideal) (r : RecvD) (s p : Stri
       injection this with e1 e2
       subst e1 e2
       exact ⟨rfl, hC.auth _ _ _ _ hd⟩
-  · simp [hk] at h
+  · simp only [hk] at h
+    have := hstep _ _ h
+    cases this
 
 /-- **pending_until_echo.**  A message handed to the Mailbox before any `close` stays in
     `_pending_outbound`, with its body, through any later inputs (losses, reconnects, peer messages,
@@ -336,7 +338,8 @@ def modelSkeleton : List (String × List (String × String)) :=
     ("Order.drain", [("for", "self._deliver")]),
     ("Order.deliver", [("-", "self._deliver")]),
     ("Order._deliver", [("-", "_R.got_message")]),
-    ("Receive.got_message", [("-", "derive_phase_key"), ("try", "decrypt_data"), ("except", "self.got_message_bad"),
+    ("Receive.got_message", [("if", "self.got_message_bad"), ("-", "derive_phase_key"), ("try", "decrypt_data"),
+                             ("except", "self.got_message_bad"),
                              ("-", "self.got_message_good")]),
     ("Receive.W_got_message", [("-", "_B.got_message")]),
     ("Receive.S_got_verified_key", [("-", "_S.got_verified_key")]) ]
